@@ -157,7 +157,11 @@ func newNotificationsTracker(namespace string, shard int64, lastOffset int64, kv
 }
 
 func (nt *notificationsTracker) UpdatedCommitOffset(offset int64) {
+	// The offset is published under the lock that waiters hold while they check it: otherwise a waiter that has
+	// just seen the old offset misses the broadcast and sleeps until the next commit
+	nt.Lock()
 	nt.lastOffset.Store(offset)
+	nt.Unlock()
 	nt.cond.Broadcast()
 }
 
